@@ -320,6 +320,16 @@ func help1(c *Ctx) {
 					}
 				}
 			}
+			// every declared command is looked at: the collecting loop is not left early
+			if ld, isLd := sub.(*ssa.UnOp); isLd {
+				if ia, isIA := ld.X.(*ssa.IndexAddr); isIA {
+					if h := rangeHeader(ia.Index); h != nil {
+						if okB, _ := noBreak(h); !okB {
+							problems = append(problems, "the loop collecting the visible sub-commands can stop before the last declared command (commands after a hidden one would not be listed)")
+						}
+					}
+				}
+			}
 			// the row: Join(c.aliases, ", "), c.desc for each element of acc
 			rowOK := false
 			for _, call := range ir.Calls(fn) {
